@@ -171,6 +171,19 @@ func HttpHeaderContains(a, b string) bool {
 	return strings.Contains(strings.ToLower(a), strings.ToLower(b))
 }
 
+// HttpHeaderContainsToken 检查逗号分隔的头部值(可以有多行)中是否包含指定的token, 忽略大小写
+// reports whether one of the comma-separated elements of the header lines equals token, ignoring case
+func HttpHeaderContainsToken(lines []string, token string) bool {
+	for _, line := range lines {
+		for _, item := range Split(line, ",") {
+			if strings.EqualFold(item, token) {
+				return true
+			}
+		}
+	}
+	return false
+}
+
 func SelectValue[T any](ok bool, a, b T) T {
 	if ok {
 		return a
